@@ -94,6 +94,105 @@ Definition g_umod (a b : Z) : outcome Z := if b =? 0 then Panic else Ok (a mod b
 Definition g_sdiv (a b : Z) : outcome Z := if b =? 0 then Panic else Ok (wrap_i64 (Z.quot a b)).
 Definition g_smod (a b : Z) : outcome Z := if b =? 0 then Panic else Ok (Z.rem a b).
 
+(* ---------------- math/bits (go1.23 src/math/bits/bits.go), operands uint64 = Z in [0, 2^64) ------
+   Add64 (bits.go:381-394): "sum = x + y + carry" (mod 2^64), carryOut = the carry out of bit 63.
+   "The carry input must be 0 or 1; otherwise the behavior is undefined."  The translator emits the
+   pure pair (add64_sum, add64_carry) only when the carry argument is the literal 0 or 1; with any
+   other carry argument it emits g_add64, which is Panic outside {0, 1}: an equivalence can then
+   only be proved where the carry is shown to be 0 or 1.  For 0 <= x, y < 2^64 and c in {0,1}:
+   x + y + c < 2^65, so (x + y + c) / 2^64 is the carry bit ((x&y | (x|y)&^sum) >> 63). *)
+Definition add64_sum (x y c : Z) : Z := wrap_u64 (x + y + c).
+Definition add64_carry (x y c : Z) : Z := (x + y + c) / two64.
+Definition g_add64 (x y c : Z) : outcome (Z * Z) :=
+  if (c =? 0) || (c =? 1) then Ok (add64_sum x y c, add64_carry x y c) else Panic.
+(* Sub64 (bits.go:426-436): diff = x - y - borrow (mod 2^64), borrowOut = 1 iff x < y + borrow *)
+Definition sub64_diff (x y b : Z) : Z := wrap_u64 (x - y - b).
+Definition sub64_borrow (x y b : Z) : Z := if x <? y + b then 1 else 0.
+Definition g_sub64 (x y b : Z) : outcome (Z * Z) :=
+  if (b =? 0) || (b =? 1) then Ok (sub64_diff x y b, sub64_borrow x y b) else Panic.
+(* Mul64 (bits.go:466-485): "(hi, lo) = x * y with the product bits' upper half returned in hi and
+   the lower half returned in lo" *)
+Definition mul64_hi (x y : Z) : Z := (x * y) / two64.
+Definition mul64_lo (x y : Z) : Z := (x * y) mod two64.
+(* Div64 (bits.go:514-524): "quo = (hi, lo)/y, rem = (hi, lo)%y ... Div64 panics for y == 0
+   (division by zero) or y <= hi (quotient overflow)".  Both panics are run-time errors
+   (runtime.divideError / runtime.overflowError), not strings: utils.IsOverflow rejects them. *)
+Definition g_div64 (hi lo y : Z) : outcome (Z * Z) :=
+  if y =? 0 then Panic
+  else if y <=? hi then Panic
+  else Ok ((hi * two64 + lo) / y, (hi * two64 + lo) mod y).
+
+(* ---------------- *big.Int (math/big), the three uses in amm.InitialPoolCoinSupply ----------------
+   A *big.Int is translated as the integer it points to, and only while the pointer cannot be
+   shared: a *big.Int variable is assigned from an allocating call only (big.NewInt(k) = k,
+   Int.BigInt() = a fresh copy of the Int's value, int.go:100), never copied, and changed only by
+   the statement  z.Exp(z, y, nil)  on a local variable z.
+   len(b.Text(10)) (intconv.go:15-26): the decimal representation, "-" for a negative number, no
+   prefix: the number of decimal digits of |b| (one for 0) plus one for the sign. *)
+Fixpoint dec_digits_fuel (fuel : nat) (z : Z) : Z :=
+  match fuel with
+  | O => 1
+  | Datatypes.S f => if z <? 10 then 1 else 1 + dec_digits_fuel f (z / 10)
+  end.
+(* the recursion divides by 10 at most log10 z <= log2 z times *)
+Definition dec_digits (z : Z) : Z := dec_digits_fuel (Datatypes.S (Z.to_nat (Z.log2 z))) z.
+Definition dec_text_len (z : Z) : Z := (if z <? 0 then 1 else 0) + dec_digits (Z.abs z).
+(* z.Exp(x, y, nil) (int.go:554): "If m == nil or m == 0, z = x**y unless y <= 0 then z = 1" *)
+Definition big_exp (x y : Z) : Z := if y <=? 0 then 1 else x ^ y.
+(* NewIntFromBigInt (cosmossdk.io/math int.go:109): BitLen > 256 panics "NewIntFromBigInt() out of bound" *)
+Definition g_int_of_big (b : Z) : outcome Z := lift_ovf (chk_int b).
+
+(* ---------------- slices of 64-bit natives ([]uint64, []int64, []int) ----------------
+   A slice value is the [list Z] of its elements.  Go slices share backing arrays; the list is an
+   exact account as long as no two live slice values share an array that one of them changes.
+   The translator enforces this syntactically (emit_purefuns_slices.go sliceCopy / genCall): a
+   slice is only ever assigned from a call, a literal, nil, x = append(x, ..) or x = x[:0] on the
+   same l-value, and a slice passed to a translated function is not changed there.  nil and the
+   empty slice are both [] (they differ only under == nil, which is not translated).
+   Index expressions (Go spec, "Index expressions": "if x is out of range at run time, a run-time
+   panic occurs"; the index may be of any integer type, in range means 0 <= i < len): *)
+Definition g_index (s : list Z) (i : Z) : outcome Z :=
+  if (i <? 0) || (zlen s <=? i) then Panic
+  else match nth_z s (Z.to_nat i) with Some v => Ok v | None => Panic end.
+Definition g_set_index (s : list Z) (i v : Z) : outcome (list Z) :=
+  if (i <? 0) || (zlen s <=? i) then Panic
+  else match set_nth s (Z.to_nat i) v with Some s' => Ok s' | None => Panic end.
+(* len(s) = zlen s (Lib/Base.v); append(s, a, b) = s ++ [a; b]; s[:0] = [] (0 <= 0 <= cap always
+   holds; any other slice expression depends on the capacity and is not translated) *)
+
+(* ---------------- loops ----------------
+   for i := a; i < b; i++ { body }  where the body does not assign i, contains no break / continue /
+   return / goto, and b is free of panics and of every variable the loop assigns (so it has the same
+   value at every test): the body runs for i = a, a+1, .., b-1 (not at all when b <= a) - i + 1
+   cannot wrap because i < b.  The state s is the tuple of the outer variables the body assigns. *)
+Fixpoint for_loop {S} (n : nat) (i : Z) (body : Z -> S -> outcome S) (s : S) : outcome S :=
+  match n with
+  | O => Ok s
+  | Datatypes.S m => obind (body i s) (fun s' => for_loop m (i + 1) body s')
+  end.
+Definition for_range {S} (a b : Z) (body : Z -> S -> outcome S) (s : S) : outcome S :=
+  for_loop (Z.to_nat (b - a)) a body s.
+(* for i, v := range xs { body }  (Go spec, "For statements with range clause": the range
+   expression is evaluated once; for a slice the index runs over 0 .. len-1 of that value).  The
+   translator requires that the body assigns no slice element, so v is xs[i] as it was at the
+   start.  Called with i = 0. *)
+Fixpoint range_loop {S} (xs : list Z) (i : Z) (body : Z -> Z -> S -> outcome S) (s : S) : outcome S :=
+  match xs with
+  | [] => Ok s
+  | x :: r => obind (body i x s) (fun s' => range_loop r (i + 1) body s')
+  end.
+
+(* ---------------- the store cell ----------------
+   A keeper function that reads, rewrites and re-reads ONE store record (spec.cell: Get(ctx, key)
+   returns (record, found); Set(ctx, record) stores the record under the key held by its key field):
+   the content of the cell before the call is an input, Set replaces what a later Get of the same
+   key returns, the content on return is appended to the results.  A Set whose record carries a key
+   field that is not literally the key the cell was read with is guarded by a test; the other
+   branch (a write to ANOTHER key, outside the cell) is this sealed constant: nothing can be
+   proved about a run that reaches it. *)
+Definition out_of_cell {A} : outcome A.
+Proof. exact Panic. Qed.
+
 (* ---------------- control ---------------- *)
 (* utils.SafeMath(f, onOverflow): run f; an overflow-class panic runs onOverflow instead, any other
    panic is re-raised.  [f] and [h] both end in the tuple of the variables either closure assigns;
